@@ -282,7 +282,8 @@ pub fn kernels(rec: &mut Recorder, rng: &mut Rng, thorough: bool, outdir: &str) 
 }
 
 // ---------------------------------------------------------------- C12: slab paired borrow
-pub fn slab(rec: &mut Recorder, rng: &mut Rng, thorough: bool) {
+pub fn slab(rec: &mut Recorder, rng: &mut Rng, thorough: bool, outdir: &str) {
+    crate::guard::install(&format!("{outdir}/fault.txt"));
     use raptorq::SymbolSlab;
     use raptorq::verif::{SymbolOps, perform_op};
     let sizes: Vec<usize> = if thorough { (1..=300).collect() } else { (1..=80).chain([127, 128, 129, 200, 255, 256, 257]).collect() };
@@ -332,6 +333,40 @@ pub fn slab(rec: &mut Recorder, rng: &mut Rng, thorough: bool) {
                 rec.put(&format!("slab {ss} {} {}", hex(&syms.concat()), ops_txt.join(",")), &hex(&all));
             }
         }
+    }
+    // malformed stream: reorder mappings that are not permutations (duplicates, entries >= count) must not
+    // turn a paired operation into overlapping or out-of-range access: the three asserts of get_pair_mut
+    // apply to the *physical* indices
+    for it in 0..(if thorough { 400 } else { 60 }) {
+        let ss = *rng.pick(&[1usize, 3, 8, 16, 33]);
+        let count = rng.range(2, 6) as usize;
+        let syms: Vec<Vec<u8>> = (0..count).map(|_| rng.bytes(ss)).collect();
+        let mut order: Vec<usize> = (0..count).collect();
+        match it % 3 { 0 => { let a = rng.below(count as u64) as usize; let b = (a + 1) % count; order[a] = order[b]; }      // duplicate
+                       1 => { let a = rng.below(count as u64) as usize; order[a] = count + rng.below(3) as usize; }          // beyond the slab
+                       _ => { rng.shuffle(&mut order); } }                                                                  // a genuine permutation (control)
+        let dest = rng.below(count as u64) as usize;
+        let src = (dest + 1 + rng.below(count as u64 - 1) as usize) % count;
+        let c = rng.range(2, 255) as u8;
+        let fma = rng.chance(1, 2);
+        let (o2, s2) = (order.clone(), syms.clone());
+        crate::guard::set_case(&format!("FAULT slab: {count} symbols of {ss} bytes, reorder {:?}, then {} dest={dest} src={src}", order, if fma { "fma" } else { "add_assign" }));
+        let r = guarded(move || {
+            let mut slab = SymbolSlab::from_symbols(s2.iter().map(|s| raptorq::Symbol::new(s.clone())).collect(), ss);
+            perform_op(&SymbolOps::Reorder { order: o2 }, &mut slab);
+            if fma { perform_op(&SymbolOps::FMA { dest, src, scalar: Octet::new(c) }, &mut slab); } else { perform_op(&SymbolOps::AddAssign { dest, src }, &mut slab); }
+            (0..count).map(|i| slab.get(i).to_vec()).collect::<Vec<_>>()
+        });
+        let bad = order[dest] == order[src] || order[dest] >= count || order[src] >= count;
+        let ops = format!("r:{},{}", order.iter().map(|x| x.to_string()).collect::<Vec<_>>().join("."), if fma { format!("f:{dest}:{src}:{c}") } else { format!("a:{dest}:{src}") });
+        match &r {
+            Ok(_) if bad => rec.impl_violation(format!("paired slab operation accepted although dest and src map to physical symbols {} and {} of {count} (overlapping or out-of-range access): ops {ops}", order[dest], order[src])),
+            _ => {}
+        }
+        // reading back through a mapping with out-of-range entries panics on both sides; compare only when defined
+        let ans = match r { Ok(v) => hex(&v.concat()), Err(_) => "err".into() };
+        rec.put(&format!("slab {ss} {} {ops}", hex(&syms.concat())), &ans);
+        rec.count(if bad { "slab_malformed_mapping" } else { "slab_permutation_control" });
     }
     // the paired borrow refuses dest == src and out-of-range indices
     let mut slab = SymbolSlab::with_zeros(3, 8);
